@@ -255,6 +255,12 @@ def run_formulas(formulas, vals, ctx, tag):
         for addr, f in where.items():
             for vi in vals:
                 val = VALUATIONS[vi]
+                if vi == 4 and ('+' in f or '-' in f):
+                    # operands of magnitude 1e-14..1e15: sums and differences cancel catastrophically, so the accepted 15-digit
+                    # normalisation of a percent operand is no longer within 1e-12 of the raw double - only products, quotients,
+                    # percent, & and comparisons are judged under this valuation
+                    r.count('extreme_valuation_skipped_additive')
+                    continue
                 ref = ref_opinion(f, val)
                 if ref is None:
                     r.count('ref_no_opinion')
